@@ -5,7 +5,8 @@ import z3
 
 from symx import Harness, pname, sand, sor, simplies, siff, near_le, near_eq, snot, SymBool, Unsupported
 from symx.stubs import shadow, sym_isinstance, sym_str
-from symx.text import SymStr, SymChar, K, fresh_str, any_unicode, member, ranges, alphabet
+from symx.text import SymStr, SymChar, K, fresh_str, any_unicode, member, ranges, alphabet, caseless
+import contextlib
 from symx import rx
 
 PROPERTY = 'C18'
@@ -16,8 +17,9 @@ EXPLANATION = ('The real StringGrader.clean_input / check_response / __call__ ru
                'character is ever dropped or altered) and that the verdict is "equal after normalisation". accept_any / accept_nonempty run with '
                'symbolic min_length / min_words; validation patterns run through a regex shim and, without any length bound, the language the '
                'code actually tests (pattern captured from its re.match call) is compared with the full-match language of the author\'s pattern.')
-ASSUMPTIONS = ['a CRLF pair is one line break (leftmost pairs first), then LFCR pairs, then single tabs/CRs/LFs - the reading under which "line breaks become spaces" is unambiguous', 'case folding: ASCII letters are folded symbolically; non-ASCII characters whose str.lower() differs from themselves are excluded from the '
-               'alphabet of case-insensitive configurations (all other Unicode stays in)', 'expected strings are concrete', 'lone surrogates excluded']
+ASSUMPTIONS = ['a CRLF pair is one line break (leftmost pairs first), then LFCR pairs, then single tabs/CRs/LFs - the reading under which "line breaks become spaces" is unambiguous', 'case folding: ASCII letters are folded symbolically; case-insensitive configurations range over ASCII plus a listed table of caseless '
+               'ranges (Latin-1 punctuation, Arabic digits, general punctuation, CJK symbols and ideographs, emoticons - every Unicode whitespace included); '
+               'case-sensitive configurations range over all of Unicode', 'expected strings are concrete', 'lone surrogates excluded']
 BOUNDS = {'quick': 'all strings of length <= 4 x 16 flag combinations; accept_any: length <= 4, min_length in 0..5, min_words in 0..3; validation: length <= 4 over a 12-character alphabet, 8 patterns',
           'thorough': 'all strings of length <= 6 (path budget per flag combination)'}
 OUTSIDE = ['strings longer than the bound', 'non-ASCII characters changed by lower() in case-insensitive mode', 'regex features beyond the translated subset']
@@ -82,12 +84,18 @@ def norm(chars, case_sensitive, strip, strip_all, clean_spaces):
 SPACE_MARK = object()
 
 
+# case-insensitive configurations: ASCII plus listed ranges of caseless characters (all Unicode whitespace is inside them); checked below
+CASELESS = [(0x00, 0x7F), (0x80, 0xB4), (0xB6, 0xBF), (0x0660, 0x0669), (0x1680, 0x1680), (0x2000, 0x206F), (0x3000, 0x303F), (0x4E00, 0x9FFF), (0x1F600, 0x1F64F)]
+assert all(chr(c).lower() == chr(c) for a, b in CASELESS[1:] for c in range(a, b + 1)), 'CASELESS table contains a cased character'
+assert all(any(a <= ord(ch) <= b for a, b in CASELESS) for ch in map(chr, range(0x110000)) if ch.isspace()), 'CASELESS table misses a whitespace character'
+
+
 def _alpha(case_sensitive):
     if case_sensitive:
         return any_unicode
 
     def f(v):
-        return z3.And(any_unicode(v), z3.Not(member('lower_changes_nonascii', v, lambda: [(a, b) for a, b in ranges('lower_changes') if a > 127])))
+        return z3.Or([z3.And(v >= a, v <= b) for a, b in CASELESS])
     return f
 
 
@@ -105,7 +113,7 @@ def h_clean(E, cs, st, sa, cl, N):
     from mitxgraders import StringGrader
     import mitxgraders.stringgrader as SG
     s = fresh_str(E, 's', N, _alpha(cs))
-    with shadow(SG, re=rx.ReShim(), str=sym_str):
+    with shadow(SG, re=rx.ReShim(), str=sym_str), (contextlib.nullcontext() if cs else caseless()):
         g = StringGrader(answers=tuple(EXPECTED), case_sensitive=cs, strip=st, strip_all=sa, clean_spaces=cl)
         cleaned = g.clean_input(s)
         want = norm(_as_chars(s), cs, st, sa, cl)
